@@ -43,6 +43,32 @@ add('C01', 'model_checking',
     TRUSTED, 'TLA+ spec + TLC model checking + TLC trace validation of real runs',
     'DESIGN.md 5/C01')
 
+add('C05', 'model_checking',
+    'TLC checks that Runner.tla (TestResult.startTest/stopTest hook loops over '
+    'order_by_bases(gather_layers(layer)), the addSkip fallback) keeps the per-test '
+    'bracket of LayerStack.tla (bases first, exact mirror, balanced, nothing outside '
+    'the stack) for all DAGs up to 3 layers with hook-less layers, outcome kinds and '
+    '--repeat; the deviation config reproduces the unbalanced-skip defect as a TLC '
+    'counterexample. Real runs over the exported DAG family with every outcome kind '
+    '(1..3 tests per layer) are validated by TLC event by event.',
+    TRUSTED + ' Whether stock unittest calls startTest for a decorator-skipped test is measured on the interpreter in use.',
+    'TLA+ spec + TLC model checking + TLC trace validation of real runs', 'DESIGN.md 5/C05')
+add('C04', 'model_checking',
+    'Containment is checked on Runner.tla as refinement plus termination (every '
+    'fault placement in layer setUp/tearDown still reaches Done with all layers torn '
+    'down); real runs with every outcome kind, 1..3 result events per test, 15 '
+    'exception classes incl. SystemExit, layer faults, --buffer on/off, -v 0..3, '
+    'in-process / resumed / -j are validated by TLC: run_internal returned, summary '
+    'present, every fault listed against its test or layer, C01 exit clauses hold.',
+    TRUSTED, 'TLA+ spec + TLC model checking (safety + liveness) + TLC trace validation', 'DESIGN.md 5/C04')
+add('C16', 'model_checking',
+    'TLC checks StopHolds on Runner.tla (at most one bad test per process once -x is '
+    'given, no further layer set up, final tear-down still reached) over DAGs x bad '
+    'test positions x --repeat; the deviation config reproduces the repeat/stop '
+    'defect. Real -x runs with the first bad outcome at first/middle/last positions, '
+    'all bad kinds, --repeat and --shuffle are validated by TLC against the same clauses.',
+    TRUSTED, 'TLA+ spec + TLC model checking + TLC trace validation of real runs', 'DESIGN.md 5/C16')
+
 NOT_YET = {
 }
 
